@@ -3,6 +3,7 @@ package checks
 import (
 	"bytes"
 	"fmt"
+	"reflect"
 	"testing"
 
 	"github.com/veraison/psatoken"
@@ -126,12 +127,51 @@ func permutedTokenCompExtras(t *rapid.T, m *MClaims) []byte {
 func isBeyondBuilders(m *MClaims) bool { return !m.IsCanned() }
 
 func TestC10_WireFormat(t *testing.T) {
-	st := NewStats("C10", "TestC10_WireFormat", "rapid: valid claims-sets of both profiles built (a) through NewClaims+setters (optionally on an object on which every claim had already been set to another valid value of possibly different length), (b) as struct literals, (c) by decoding independently encoded tokens with permuted key order, extra unknown keys at top level and inside component maps (incl. the P1 no-measurements form), optionally followed by an in-place update of one decoded component through the object the getter returns, (d) by decoding JSON written by the harness (absent optional claims optionally spelt as null members, unknown members, 64-bit flag values, rotated member order), (e) through setters followed by REFUSED setter calls (invalid values, component lists with a malformed later entry), (f) through setters with the SAME component object listed at several positions (in one call or one by one through the container's Add); the bytes of ValidateAndEncodeClaimsToCBOR are parsed by the independent reader and compared key by key with the model's wire map (definite lengths, no duplicates/tags/trailing bytes, exact key set, exact values, bare-bstr nonce, never list+flag). Non-trivial = not the canned builder shape; distinct = class vector + route")
-	st.Require = []string{"route=setters", "route=literal", "route=decoded", "route=decoded+touched", "route=setters-twice", "route=json-decoded", "route=shared-component", "route=setters+refused", "P1", "P2", "nomeas"}
+	st := NewStats("C10", "TestC10_WireFormat", "rapid: valid claims-sets of both profiles built (a) through NewClaims+setters (optionally on an object on which every claim had already been set to another valid value of possibly different length), (b) as struct literals, (c) by decoding independently encoded tokens with permuted key order, extra unknown keys at top level and inside component maps (incl. the P1 no-measurements form), optionally followed by an in-place update of one decoded component through the object the getter returns, (d) by decoding JSON written by the harness (absent optional claims optionally spelt as null members, unknown members, 64-bit flag values, rotated member order), (e) through setters followed by REFUSED setter calls (invalid values, component lists with a malformed later entry), (g) as instances of the seven extension styles (incl. the profile-1 no-measurements form), (f) through setters with the SAME component object listed at several positions (in one call or one by one through the container's Add); the bytes of ValidateAndEncodeClaimsToCBOR are parsed by the independent reader and compared key by key with the model's wire map (definite lengths, no duplicates/tags/trailing bytes, exact key set, exact values, bare-bstr nonce, never list+flag). Non-trivial = not the canned builder shape; distinct = class vector + route")
+	st.Require = []string{"route=setters", "route=literal", "route=decoded", "route=decoded+touched", "route=setters-twice", "route=json-decoded", "route=shared-component", "route=setters+refused", "route=extension", "extension-nomeas", "P1", "P2", "nomeas"}
 	defer st.Flush(t)
 	rapid.Check(t, func(t *rapid.T) {
 		p := drawProf(t)
-		route := rapid.SampledFrom([]string{"setters", "literal", "decoded", "setters", "decoded", "json-decoded", "shared-component"}).Draw(t, "route")
+		route := rapid.SampledFrom([]string{"setters", "literal", "decoded", "setters", "decoded", "json-decoded", "shared-component", "extension"}).Draw(t, "route")
+		if route == "extension" {
+			// an instance of one of the extension styles (own codec through
+			// the embedding-aware helpers, or inherited): the emitted map is
+			// the base profile's plus the profile claim and the own claims
+			es := extStyles[rapid.IntRange(0, len(extStyles)-1).Draw(t, "style")]
+			m := GenValid(t, es.Base, true)
+			if es.Base == P1 {
+				m.Profile = sp(P1Name)
+			}
+			var own []*int64
+			for i := range es.OwnKeys {
+				if genBool.Draw(t, fmt.Sprintf("own%d", i)) {
+					v := rapid.Int64Range(0, 1<<40).Draw(t, fmt.Sprintf("own%d.val", i))
+					if extRuleBroken(&v) {
+						v = 14
+					}
+					own = append(own, &v)
+				} else {
+					own = append(own, nil)
+				}
+			}
+			c, err := es.build(m, own...)
+			if err != nil {
+				t.Fatalf("VERIF-INFRA: %v", err)
+			}
+			out, err := psatoken.ValidateAndEncodeClaimsToCBOR(c)
+			if err != nil {
+				t.Fatalf("C10: valid %s claims do not encode: %v [%s]", es.Label, err, m.ClassVector())
+			}
+			if msg := es.checkWire(out, m, own...); msg != "" {
+				t.Fatalf("C10 violated (extension style %s): %s\n emitted: %x\n [%s]", es.Label, msg, out, m.ClassVector())
+			}
+			cls := []string{"route=extension", es.Base.String()}
+			if m.NoMeas != nil {
+				cls = append(cls, "nomeas", "extension-nomeas")
+			}
+			st.Case("extension|"+es.Label+"|"+m.ClassVector(), cls...)
+			return
+		}
 		m := GenValid(t, p, route == "setters" || route == "shared-component")
 		var c psatoken.IClaims
 		var err error
@@ -387,23 +427,73 @@ func fmtI64(p *int64) string {
 
 func TestC09_RoundTrip(t *testing.T) {
 	st := NewStats("C09", "TestC09_RoundTrip", "rapid: (valid) claims-sets of both profiles, and of registered extension profiles of six styles (own codec through the helpers on either base profile, inherited codec without profile claim, inherited codec and OID name, own claim whose Go field name shadows a base field, extension of an extension; own claims absent / zero / non-zero; wire map checked by the independent reader), via setters/literals -> EncodeClaimsToCBOR -> DecodeClaimsFromCBOR: identical getter results and byte-identical re-encoding; (invalid-but-decodable) model-generated invalid tokens encoded by the independent encoder, decoded, re-encoded: encoder error or same getter results. Non-trivial = beyond the canned builder sets (48/64-byte hashes, >=2 components, optional component text, non-ASCII text, negative client id, no-measurements after a decode, invalid-but-decodable); distinct = class vector + route")
-	st.Require = []string{"valid", "invalid-decoded", "P1", "P2", "nomeas-decoded", "extension", "style=ext-p2", "style=ext-p1", "style=inherit-p1", "style=inherit-p2-oid", "style=shadow-p2", "style=nested-p2", "style=lookalike-key-p2"}
+	st.Require = []string{"valid", "invalid-decoded", "P1", "P2", "nomeas-decoded", "extension", "style=ext-p2", "style=ext-p1", "style=inherit-p1", "style=inherit-p2-oid", "style=shadow-p2", "style=nested-p2", "style=lookalike-key-p2", "ext-own-claim-values"}
 	defer st.Flush(t)
 	registerMu.Lock()
 	defer registerMu.Unlock()
 	restore := psatoken.VerifCheckpointProfiles()
 	defer restore()
 	registerExtStyles()
+	if err := psatoken.RegisterProfile(nonceP2Profile{}); err != nil {
+		t.Fatalf("VERIF-INFRA: %v", err)
+	}
 	rapid.Check(t, func(t *rapid.T) {
 		p := drawProf(t)
 		styleLabel := ""
-		kind := rapid.SampledFrom([]string{"valid-setters", "valid-literal", "valid-decoded", "any-decoded", "any-decoded", "extension", "dup-profile-key"}).Draw(t, "kind")
+		kind := rapid.SampledFrom([]string{"valid-setters", "valid-literal", "valid-decoded", "any-decoded", "any-decoded", "extension", "dup-profile-key", "ext-own-claim-values"}).Draw(t, "kind")
 		var m *MClaims
 		var c psatoken.IClaims
 		var err error
 		valid := true
 		decode := psatoken.DecodeClaimsFromCBOR
 		switch kind {
+		case "ext-own-claim-values":
+			// a token of an extension profile whose own optional claim (a
+			// nonce type that checks its length when ENCODED, not when
+			// decoded) carries a conforming or a non-conforming value: if
+			// the token decodes, re-encoding fails or reproduces that claim
+			m = GenValid(t, P2, false)
+			p = P2
+			ps := bodyPairs(m)
+			ps = append(ps, icbor.P(icbor.U(265), icbor.Tstr(NonceP2Name)))
+			var own *icbor.Node
+			switch rapid.IntRange(0, 5).Draw(t, "own") {
+			case 0:
+				own = icbor.Bstr(drawBytes(t, 32, "own32"))
+			case 1:
+				own = icbor.Bstr(drawBytes(t, rapid.SampledFrom([]int{0, 1, 2, 7, 65, 100}).Draw(t, "ownlen"), "ownbad"))
+			case 2:
+				own = icbor.Arr(icbor.Bstr(drawBytes(t, 8, "a")), icbor.Bstr(drawBytes(t, 2, "b")))
+			case 3:
+				own = icbor.Arr()
+			case 4:
+				own = icbor.Arr(icbor.Bstr(drawBytes(t, 8, "a")), icbor.Bstr(drawBytes(t, 64, "b")))
+			default:
+				own = icbor.Bstr(drawBytes(t, 8, "own8"))
+			}
+			ps = append(ps, icbor.P(icbor.I(-75400), own))
+			tok := icbor.Encode(icbor.Map(ps...))
+			d0, derr := psatoken.DecodeClaimsFromCBOR(tok)
+			if derr != nil {
+				st.Case("", "undecodable")
+				return
+			}
+			n0, ok := d0.(*NonceP2Claims)
+			if !ok {
+				t.Fatalf("C09 violated: token declaring %q decodes as %T", NonceP2Name, d0)
+			}
+			enc, eerr := psatoken.EncodeClaimsToCBOR(d0)
+			if eerr == nil {
+				d1, derr := psatoken.DecodeClaimsFromCBOR(enc)
+				if derr == nil {
+					n1, _ := d1.(*NonceP2Claims)
+					if n1 == nil || !reflect.DeepEqual(n0.Extra, n1.Extra) || ObserveGetters(d0) != ObserveGetters(d1) {
+						t.Fatalf("C09 violated: a decoded extension claims-set (own claim %s) re-encodes without error to bytes that decode to something else:\n  token      %x\n  re-encoded %x", icbor.Diag(own), tok, enc)
+					}
+				}
+			}
+			st.Case("ext-own|"+icbor.Diag(own)+"|"+m.ClassVector(), "P2", "extension", "ext-own-claim-values")
+			return
 		case "dup-profile-key":
 			// a token carrying key 265 twice (a registered name each time, or
 			// an unregistered one): IF it decodes, whatever it decodes to must
